@@ -596,6 +596,55 @@ def gen_appreact(rng):
     out.append("top frameend")
     return "\n".join(out) + "\n"
 
+def gen_frames(rng):
+    """C08/C10/C11: whole frames through `App::update()` (the `Last` schedule: collector, then the poll) instead of the
+    manual `frameend`. Removal reactors for every component type are registered first, so every poll reads all removal
+    events (Bevy drops unread ones after two updates, which the model does not describe)."""
+    g = G(rng); out = []
+    nE = rng.randint(2, 4)
+    g.ndefs = rng.randint(1, 2)
+    for d in range(g.ndefs):
+        runs = []
+        for _ in range(rng.randint(1, 2)):
+            sc = []
+            for _ in range(rng.randint(0, 2)):
+                x = rng.random(); e = "e%d" % rng.randrange(nE)
+                if x < 0.4: sc.append("remove %s %d" % (e, rng.randrange(NTY)))
+                elif x < 0.6: sc.append("despawn %s" % e)
+                elif x < 0.8: sc.append("insert %s %d 1" % (e, rng.randrange(NTY)))
+                else: sc.append("broadcast 0 %d" % g.newpid())
+            runs.append(sc)
+        out.append("def 0 %d" % len(runs))
+        for sc in runs: out.append("run %d" % len(sc)); out += sc
+    setup = ["spawn"] * nE
+    for e in range(nE):
+        for ty in range(NTY): setup.append("insert e%d %d 1" % (e, ty))
+    setup.append("on p %d rem:0 rem:1" % rng.randrange(g.ndefs))
+    nS = 1
+    for _ in range(rng.randint(1, 3)):
+        e = "e%d" % rng.randrange(nE)
+        t = rng.choice(["dsp:%s" % e, "erem:%s:%d" % (e, rng.randrange(NTY)), "bc:0", "dsp:%s erem:%s:0" % (e, e)])
+        setup.append("on %s %d %s" % (rng.choice("pcr"), rng.randrange(g.ndefs), t)); nS += 1
+    out.append("top acts %d" % len(setup)); out += setup
+    for _ in range(rng.randint(3, 8)):
+        x = rng.random(); e = "e%d" % rng.randrange(nE)
+        if x < 0.3: out.append("top update")
+        elif x < 0.45: out.append("top wremove %s %d" % (e, rng.randrange(NTY)))
+        elif x < 0.55: out.append("top wdespawn %s" % e)
+        elif x < 0.6: out.append("top wdespawn s%d" % rng.randrange(nS))
+        else:
+            sc = []
+            for _ in range(rng.randint(1, 3)):
+                y = rng.random(); e = "e%d" % rng.randrange(nE)
+                if y < 0.35: sc.append("remove %s %d" % (e, rng.randrange(NTY)))
+                elif y < 0.55: sc.append("despawn %s" % e)
+                elif y < 0.7: sc.append("insert %s %d 2" % (e, rng.randrange(NTY)))
+                elif y < 0.85: sc.append("despawn s%d" % rng.randrange(nS))
+                else: sc.append("broadcast 0 %d" % g.newpid())
+            out.append("top acts %d" % len(sc)); out += sc
+    out.append("top update")
+    return "\n".join(out) + "\n"
+
 def gen_visibility(rng):
     """C03/C04/C05: several listeners per event; bodies run other systems (probes) and send further events, so readers
     are sampled at every position of the tree while data entities are still alive."""
@@ -802,6 +851,7 @@ PROFILES = {
     "removal2": gen_removal2,
     "dsp": gen_dsp,
     "cascade": gen_cascade,
+    "frames": gen_frames,
     "appreact": gen_appreact,
     "deeprec": gen_deeprec,
     "access2": gen_access2,
